@@ -682,3 +682,74 @@ def ulp_jitter(draw, case, p=3):
         new['rows'] = rows
         new['ulp'] = True
     return new
+
+
+# ------------------------------------------------------------------------------------------------
+# Nested partial parameter assignments over existing leaves (C11, C12, C13)
+
+LEAF_DOMAINS = {
+    ('MSA',): [None, 0, 1200, 3000, 10000, 25000],
+    ('MSA_HIT_BUFFER',): [0, 500, 1500, 3000],
+    ('MAX_HITS_OKTA0',): [0, 1, 3, 5],
+    ('MAX_HOLES_OKTA8',): [0, 1, 4],
+    ('BASE_LVL_HEIGHT_PERC',): [0, 5, 50, 95.5],
+    ('BASE_LVL_LOOKBACK_PERC',): [100, 50, 20],
+    ('EXCLUDE_FOR_BASE_HEIGHT_CALC',): [[], ['a'], ['0', '1'], ['Final05']],
+    ('LOWESS', 'frac'): [0.1, 0.35, 0.8],
+    ('LOWESS', 'it'): [0, 3, 5],
+    ('MIN_SEP',): [([250, 1000], [10000]), ([100], []), ([100, 300, 600], [2000, 8000]), ([500, 500], [5000])],
+    ('SLICING_PRMS', 'distance_threshold'): [0.05, 0.2, 0.6],
+    ('SLICING_PRMS', 'dt_scale'): [1000, 100000],
+    ('SLICING_PRMS', 'height_scale_kwargs', 'min_range'): [100, 1000, 5000],
+    ('GROUPING_PRMS', 'height_pad_perc'): [0, 10, 100],
+    ('GROUPING_PRMS', 'dt_scale'): [60, 180, 1000],
+    ('GROUPING_PRMS', 'height_scale_range'): [[100, 500], [50, 50], [200, 2000]],
+    ('LAYERING_PRMS', 'min_okta_to_split'): [0, 2, 5],
+    ('LAYERING_PRMS', 'gmm_kwargs', 'scores'): ['BIC', 'AIC'],
+    ('LAYERING_PRMS', 'gmm_kwargs', 'mode'): ['delta', 'prob'],
+    ('LAYERING_PRMS', 'gmm_kwargs', 'min_prob'): [1.0, 0.5],
+    ('LAYERING_PRMS', 'gmm_kwargs', 'delta_mul_gain'): [0.95, 0.8, 1.0],
+    ('LAYERING_PRMS', 'gmm_kwargs', 'rescale_0_to_x'): [None, 100, 1000],
+}
+
+
+def set_path(dct, path, val):
+    for k in path[:-1]:
+        dct = dct.setdefault(k, {})
+    dct[path[-1]] = val
+
+
+@st.composite
+def leaf_assignment(draw, min_leaves=0, max_leaves=8):
+    """ -> nested partial dict over existing leaves (json-able). """
+    paths = draw(st.lists(st.sampled_from(sorted(LEAF_DOMAINS)), min_size=min_leaves, max_size=max_leaves,
+                          unique=True))
+    out = {}
+    for path in paths:
+        val = draw(st.sampled_from(LEAF_DOMAINS[path]))
+        if path == ('MIN_SEP',):
+            out['MIN_SEP_VALS'], out['MIN_SEP_LIMS'] = list(val[0]), list(val[1])
+        else:
+            set_path(out, path, val if not isinstance(val, list) else list(val))
+    return out
+
+
+UNKNOWN_KEYS = [('FOO',), ('msa',), ('SLICING_PRMS', 'bar'), ('LAYERING_PRMS', 'gmm_kwargs', 'zzz'),
+                ('LOWESS', 'Frac'), ('NEW_SECTION', 'a')]
+
+
+@st.composite
+def with_unknown_keys(draw, prms, p=3):
+    """ Adds 0-2 unknown keys at various depths. -> (prms, n_unknown) """
+    out = {k: (dict(v) if isinstance(v, dict) else v) for k, v in prms.items()}
+    n = 0
+    if draw(st.integers(0, 9)) < p:
+        for path in draw(st.lists(st.sampled_from(UNKNOWN_KEYS), min_size=1, max_size=2, unique=True)):
+            import copy as _copy
+            out = _copy.deepcopy(out)
+            if len(path) == 2 and path[0] == 'NEW_SECTION':
+                out['NEW_SECTION'] = {'a': 1}
+            else:
+                set_path(out, path, draw(st.sampled_from([1, 'x', None])))
+            n += 1
+    return out, n
